@@ -544,3 +544,115 @@ theorem fail_wire_uniform (F : Factory) (c : Conn) (now : Int) (e1 e2 : Err) (st
   · split <;> simp [wire, List.filter, Out.isWire]
 
 end O4.Obfs4Server
+
+namespace O4.RF
+
+/-- compaction leaves a non-full filter alone when its eldest entry is young (and not in the future) -/
+theorem compactList_front_young (ttl : Int) (cap : Nat) (now : Int) (l : List Entry)
+    (httl : 0 < ttl) (hl : l.length < cap)
+    (hfront : ∀ e, l.head? = some e → e.t ≤ now ∧ now - e.t < ttl) :
+    compactList ttl cap now l = l := by
+  cases l with
+  | nil => rfl
+  | cons e rest =>
+    have := hfront e rfl
+    unfold compactList
+    rw [if_pos ⟨hl, httl⟩]
+    simp only
+    rw [if_neg (by omega), if_pos this.2]
+
+/-- **`fillFresh` is `TestAndSet` repeated**: for pairwise distinct values that are not in the filter,
+    below capacity, with a young eldest entry, submitting them one by one at `now` answers "new" every
+    time and leaves exactly the filter with the values appended. (Justifies the fast path of the
+    driver op `fac.fill`.) -/
+theorem fillFresh_eq_run (now : Int) :
+    ∀ (ds : List Nat) (f : Filter), 0 < f.ttl → f.fifo.length + ds.length ≤ f.cap →
+      (∀ e, f.fifo.head? = some e → e.t ≤ now ∧ now - e.t < f.ttl) →
+      ds.Nodup → (∀ d ∈ ds, ∀ e ∈ f.fifo, e.d ≠ d) →
+      f.run (ds.map (fun d => (now, d))) = (f.fillFresh now ds, ds.map (fun _ => false)) := by
+  intro ds
+  induction ds with
+  | nil => intro f _ _ _ _ _; simp [Filter.run, Filter.fillFresh]
+  | cons d rest ih =>
+    intro f httl hroom hfront hnd hfresh
+    have hl : f.fifo.length < f.cap := by simp at hroom; omega
+    have hc : compactList f.ttl f.cap now f.fifo = f.fifo :=
+      compactList_front_young f.ttl f.cap now f.fifo httl hl hfront
+    have hts : f.testAndSet now d = ({ f with fifo := f.fifo ++ [⟨d, now⟩] }, false) := by
+      unfold Filter.testAndSet Filter.compact
+      simp only [hc]
+      rw [if_neg]
+      simp only [List.any_eq_true, beq_iff_eq, not_exists, not_and]
+      intro e he; exact hfresh d (by simp) e he
+    simp only [List.map_cons, Filter.run, hts]
+    have hnd' := List.nodup_cons.mp hnd
+    rw [ih { f with fifo := f.fifo ++ [⟨d, now⟩] } httl (by simp at hroom ⊢; omega) ?_ hnd'.2 ?_]
+    · simp [Filter.fillFresh, List.append_assoc]
+    · intro e he
+      cases hf : f.fifo with
+      | nil => simp [hf] at he; subst he; simp; omega
+      | cons e0 r0 =>
+        simp [hf] at he; subst he
+        exact hfront e0 (by simp [hf])
+    · intro d' hd' e he
+      simp only [List.mem_append, List.mem_singleton] at he
+      rcases he with he | rfl
+      · exact hfresh d' (by simp [hd']) e he
+      · simp only; intro h; exact hnd'.1 (h ▸ hd')
+
+/-- **a full filter forgets only its eldest entry**: at capacity, `TestAndSet` of a value remembered
+    anywhere but at the front still answers "seen" (the forced eviction takes exactly the front
+    entry, then TTL-based compaction resumes and stops at the young new front). -/
+theorem full_keeps_all_but_eldest (f : Filter) (e0 : Entry) (rest : List Entry) (now : Int) (d : Nat)
+    (hf : f.fifo = e0 :: rest) (hfull : f.fifo.length = f.cap) (httl : 0 < f.ttl)
+    (hfront : ∀ e, rest.head? = some e → e.t ≤ now ∧ now - e.t < f.ttl)
+    (hmem : ∃ e ∈ rest, e.d = d) :
+    (f.testAndSet now d).2 = true := by
+  have hc : compactList f.ttl f.cap now f.fifo = rest := by
+    rw [hf]; unfold compactList
+    rw [if_neg (by rw [hf] at hfull; simp at hfull ⊢; omega)]
+    exact compactList_front_young f.ttl f.cap now rest httl (by rw [hf] at hfull; simp at hfull; omega) hfront
+  unfold Filter.testAndSet Filter.compact
+  simp only [hc]
+  rw [if_pos]
+  obtain ⟨e, he, hd⟩ := hmem
+  simp only [List.any_eq_true, beq_iff_eq]
+  exact ⟨e, he, hd⟩
+
+end O4.RF
+
+namespace O4.Handshake
+open O4.RF
+
+/-- once the filter answers "seen" for the received MAC, the MAC loop never finds an hour -/
+theorem macLoop_seen (P : Prims) (s : Server) (body macRx : Bytes) (H now : Int) (f : Filter)
+    (hseen : (f.testAndSet now (Bytes.toNatBE macRx)).2 = true) :
+    ∀ (offs : List Int), (macLoop P s body macRx H now offs f none).2 = .error () ∨
+      (macLoop P s body macRx H now offs f none).2 = .ok none := by
+  intro offs
+  induction offs with
+  | nil => right; rfl
+  | cons off rest ih =>
+    unfold macLoop
+    by_cases hm : mac P s.idPub s.nodeID body (H + off) = macRx
+    · rw [if_pos hm]; simp only [hseen, if_true]; left; trivial
+    · rw [if_neg hm]; exact ih
+
+/-- … hence the parser does not accept -/
+theorem parse_not_ok_of_seen (P : Prims) (s : Server) (f : Filter) (H now : Int) (resp : Bytes) (pos : Nat)
+    (hpos : markPos P s resp = some pos)
+    (hseen : (f.testAndSet now (Bytes.toNatBE (macAt resp pos))).2 = true) :
+    ∀ seed, (parseClientHandshake P s f H now resp).2.2 ≠ .ok seed := by
+  intro seed
+  rw [parse_unfold]
+  split
+  · simp
+  · rw [hpos]
+    simp only
+    rcases hm : macLoop P (withCache P s resp) (bodyAt resp pos) (macAt resp pos) H now [0, -1, 1] f none with ⟨f', v⟩
+    have := macLoop_seen P (withCache P s resp) (bodyAt resp pos) (macAt resp pos) H now f hseen [0, -1, 1]
+    rw [hm] at this
+    simp only at this
+    rcases this with h | h <;> subst h <;> simp
+
+end O4.Handshake
